@@ -14,6 +14,9 @@
                                               (only executeProcess looks at the flag)
      - executeProcess, real spawn  : [Spawn]  refused once cancelled
      - ~LaneBasedExecutionQueue    : [Shutdown] sets the flag; lanes keep taking until both queues are empty
+                                              (after joining the lanes it also waits for the detached threads of
+                                               lane-released process waits, 04dd166; lane release itself is outside this
+                                               transition system and is sampled by the harness, also under ThreadSanitizer)
    The choice among equal maximal names by std::priority_queue is a property of the heap algorithm, not of the
    llbuild sources: the Take label therefore carries the job that was observed and [step] checks that it is a
    legal choice (for FIFO and for the high-priority list the choice is unique). *)
